@@ -305,8 +305,8 @@ func main() {
 		fmt.Fprintf(os.Stderr, "c10: %-22s %6.1fs\n", what, time.Since(t0).Seconds())
 	}
 	thorough := *tier == "thorough"
-	nProg, nVal := 4, 3
-	maxTruncLen, maxCorruptPos := 400, 24
+	nProg, nVal := 3, 3
+	maxTruncLen, maxCorruptPos := 300, 16
 	if thorough {
 		nProg, nVal = 22, 5
 		maxTruncLen, maxCorruptPos = 700, 60
@@ -543,7 +543,7 @@ func main() {
 				}
 			}
 		}
-		if len(std) <= maxTruncLen {
+		if len(std) <= maxTruncLen && (thorough || vec.Corpus || p.Key == "cp" || vi%2 == 0) {
 			add2(&pending{kind: "trunc", vec: vec, rkind: "own", input: std, own: true}, "fasttrunc", u.Key, s.QName(), o.Std.Bytes)
 		}
 		if pos := typeBytePositions(std); len(pos) > 0 {
